@@ -16,7 +16,7 @@ import Upa.Props.C01
 namespace Upa.Props
 open Upa Upa.Impl.B
 
-theorem unitsOk_uOk' {e : Enc} {l : List Nat} (h : UnitsOk e l) : Upa.Proofs.C10b.UOk e l := by
+theorem unitsOk_uOk_g {e : Enc} {l : List Nat} (h : UnitsOk e l) : Upa.Proofs.C10b.UOk e l := by
   cases e <;> exact h
 
 /-! ### src/url_ip.cpp ipv6_serialize -/
@@ -43,7 +43,7 @@ example : ipv6SerializeM #[65536, 1] 0 2 = .ok (asciiStr "0:1") ∧ Impl.ipv6Ser
 theorem C04_agrees_parse_opaque_host : ∀ (e : Enc) (a : Array Nat) (first last : Nat), first ≤ last →
     last ≤ a.size → UnitsOk e (slice a first last) →
     parseOpaqueHostM e a first last = .ok (Impl.parseOpaqueHost (Impl.decode e (slice a first last))) :=
-  fun e a f l h hl hu => parseOpaqueHostM_agrees e a f l h hl (unitsOk_uOk' hu)
+  fun e a f l h hl hu => parseOpaqueHostM_agrees e a f l h hl (unitsOk_uOk_g hu)
 example : parseOpaqueHostM .u16 #[0x61, 0xD800, 0x01, 0xE9] 0 4 =
     .ok (some { kind := .opaque, text := asciiStr "a%EF%BF%BD%01%C3%A9" }) := by decide
 example : Impl.parseOpaqueHost (Impl.decode .u16 [0x61, 0xD800, 0x01, 0xE9]) =
@@ -59,7 +59,7 @@ example : parseOpaqueHostM .u8 #[0x61, 0xC3, 0x20] 0 3 = .ok none := by decide
 theorem C04_agrees_parse_host_partial : ∀ (idna : Idna) (e : Enc) (a : Array Nat) (first last : Nat),
     first ≤ last → last ≤ a.size → UnitsOk e (slice a first last) → (first < last → a[first]! ≠ 0x5B) →
     parseHostM idna e a first last true = .ok (Impl.parseHost idna (Impl.decode e (slice a first last)) true) :=
-  fun i e a f l h hl hu hb => parseHostM_opaque_agrees i e a f l h hl (unitsOk_uOk' hu) hb
+  fun i e a f l h hl hu hb => parseHostM_opaque_agrees i e a f l h hl (unitsOk_uOk_g hu) hb
 example : parseHostM some .u8 (ofStr "a\x01b") 0 3 true = .ok (some { kind := .opaque, text := asciiStr "a%01b" }) := by decide
 example : parseHostM some .u8 (ofStr "") 0 0 true = .ok (some { kind := .empty, text := [] }) := by decide
 
@@ -97,7 +97,7 @@ example : parseHostM some .u16 (ofStr "EXAMPLE.com") 0 11 false =
 theorem C04_agrees_parse_path : ∀ (e : Enc) (a : Array Nat) (first last : Nat) (u : Url), first ≤ last →
     last ≤ a.size → UnitsOk e (slice a first last) →
     parsePathM e a first last u = .ok (Impl.parsePath u (Impl.decode e (slice a first last))) :=
-  fun e a f l u h hl hu => parsePathM_agrees e a f l u h hl (unitsOk_uOk' hu)
+  fun e a f l u h hl hu => parsePathM_agrees e a f l u h hl (unitsOk_uOk_g hu)
 example : UnitsOk .u8 (slice (ofStr "a/../b/%2E/c|") 0 13) := by
   show ∀ x ∈ slice (ofStr "a/../b/%2E/c|") 0 13, x < 256
   decide
@@ -117,4 +117,5 @@ example : Impl.parsePath { scheme := Impl.sFile } (Impl.decode .u8 [0xE2, 0x82, 
 #print axioms C04_agrees_parse_path
 #print axioms C04_agrees_hostname_ends_in_a_number
 #print axioms C04_agrees_parse_host_domain_partial
+#print axioms unitsOk_uOk_g
 end Upa.Props
